@@ -13,7 +13,7 @@ package main
 //   DA                               wait until the preload workers are finished
 //   K                                the cache file is unlinked under the running loader
 //   Y:<K|A|R<n>>:<m|l>               a start-up that fails: its init state file is missing (m) or of the wrong length (l)
-//   X:<state 0|1|2>:<K|A|R<n>>:<preload 0|1>   restart: state file readable (1), hidden (0) or replaced by a foreign one of
+//   X:<state 0|1|2>:<K|A|R<n>>:<preload 0|1|I<bits>>   restart (I<bits>: pre-load from a separate init state file with these bits): state file readable (1), hidden (0) or replaced by a foreign one of
 //                                              the wrong length (2); cache kept/absent/resized; preload
 // Predicate (independent of the model): a ReadAt that reports success returns exactly blob[off:off+n] with
 // n = min(len, L-off); an error is allowed only if the store failed during that call (or off < 0); no panic.
@@ -380,6 +380,22 @@ func (x *c10Run) restart(tok int, t string) error {
 		opt.StateInitFile = filepath.Join(x.dir, "init-state-of-another-index")
 		os.WriteFile(opt.StateInitFile, bytes.Repeat([]byte{0xff}, (len(x.idx.Chunks)+7)/8+1), 0644)
 	}
+	initBits := ""
+	if strings.HasPrefix(parts[3], "I") { // a separate init state file holding these bits (any bits: it only triggers loads)
+		initBits = parts[3][1:]
+		raw := make([]byte, (len(initBits)+7)/8)
+		for i, b := range initBits {
+			if b == '1' {
+				raw[i/8] |= 1 << uint(i%8)
+			}
+		}
+		opt.StateInitFile = filepath.Join(x.dir, "init-state")
+		os.WriteFile(opt.StateInitFile, raw, 0644)
+		opt.StateInitConcurrency = 2
+		if len(x.c.Faults) > 0 {
+			opt.StateInitConcurrency = 1
+		}
+	}
 	if parts[3] == "1" && haveState && parts[1] == "1" {
 		opt.StateInitFile = x.state
 		opt.StateInitConcurrency = 2
@@ -395,8 +411,8 @@ func (x *c10Run) restart(tok int, t string) error {
 	sizeOK := fi != nil && fi.Size() == int64(len(x.blob))
 	stateUsed := sizeOK && haveState && parts[1] == "1"
 	x.loadedStale = stateUsed && x.staleState
-	if opt.StateInitFile != "" && !stateUsed {
-		b, _ := os.ReadFile(x.state)
+	if opt.StateInitFile != "" && !stateUsed && failKind == "" {
+		b, _ := os.ReadFile(opt.StateInitFile)
 		calls, _ := x.st.counters()
 		x.preloadWant = calls + strings.Count(c10Bits(b, len(x.idx.Chunks)), "1")
 	}
@@ -995,6 +1011,76 @@ func c10GenFailedStart(rng *vh.Rand, c *c10Case) {
 	c.Script = append(c.Script, []string{"X:1:K:0", "X:1:K:1", "X:1:A:0"}[rng.Intn(3)], "DA", fmt.Sprintf("Q2:R:0:%d", L), "D2")
 }
 
+// pre-load from an init state file whose bits cover null chunks (all ones, or a random set with at least one null chunk),
+// with as many real chunks left unloaded (not listed, or their pre-load fails transiently) as null chunks are pre-loaded;
+// then everything is read
+func c10Perm(rng *vh.Rand, n int) []int {
+	p := make([]int, n)
+	for i := range p {
+		p[i] = i
+	}
+	for i := n - 1; i > 0; i-- {
+		j := rng.Intn(i + 1)
+		p[i], p[j] = p[j], p[i]
+	}
+	return p
+}
+
+func c10GenPreloadNull(rng *vh.Rand, c *c10Case) bool {
+	blob := vh.UnHex(c.BlobHex)
+	var nulls, reals []int
+	off := 0
+	for i, sz := range c.Sizes {
+		if sz == c.Max && bytes.Equal(blob[off:off+sz], make([]byte, sz)) {
+			nulls = append(nulls, i)
+		} else {
+			reals = append(reals, i)
+		}
+		off += sz
+	}
+	if len(nulls) == 0 || len(reals) == 0 {
+		return false
+	}
+	bits := make([]byte, len(c.Sizes))
+	for i := range bits {
+		bits[i] = '1'
+	}
+	k := 1 + rng.Intn(len(nulls)) // null chunks that are pre-loaded
+	if k > len(reals) {
+		k = len(reals)
+	}
+	for _, j := range c10Perm(rng, len(nulls))[k:] {
+		bits[nulls[j]] = '0'
+	}
+	var failing []int
+	for _, j := range c10Perm(rng, len(reals))[:k] { // real chunks that stay unloaded
+		if rng.Bool() {
+			bits[reals[j]] = '0'
+		} else {
+			failing = append(failing, reals[j])
+		}
+	}
+	for _, i := range failing { // the pre-loader asks in index order: the call number is the rank among the set bits
+		c.Faults = append(c.Faults, c09Fault{K: strings.Count(string(bits[:i]), "1"), Code: []int{2, 5, 3}[rng.Intn(3)]})
+	}
+	c.Script = append(c.Script, "X:1:A:I"+string(bits), "DA")
+	if rng.Bool() {
+		c.Script = append(c.Script, fmt.Sprintf("Q0:R:0:%d", off), "D0")
+	} else {
+		for _, i := range c10Perm(rng, len(c.Sizes)) {
+			st := 0
+			for _, sz := range c.Sizes[:i] {
+				st += sz
+			}
+			c.Script = append(c.Script, fmt.Sprintf("Q%d:R:%d:%d", i%4, st, c.Sizes[i]), fmt.Sprintf("D%d", i%4))
+		}
+	}
+	if rng.Bool() {
+		c.Script = append(c.Script, "Q0:S", "D0", "X:1:K:0", "DA", fmt.Sprintf("Q2:R:0:%d", off), "D2")
+	}
+	return true
+}
+
 // the cache file is unlinked under the running loader: ranges already populated are still served from the open
 // handles, a load cannot write (its read fails), nothing may be served from a file re-created at the path
 func c10GenUnlink(rng *vh.Rand, c *c10Case) {
@@ -1100,6 +1186,16 @@ func runC10(a vh.Args, o *vh.Oracle, r *vh.Result) error {
 				r.Note("run aborted after a hang")
 				return nil
 			}
+			return err
+		}
+	}
+	for i, made := 0, 0; made < nConc/3 && i < 40*nConc; i++ {
+		c := mk("preload-null")
+		if !c10GenPreloadNull(rng, c) {
+			continue
+		}
+		made++
+		if err := c10Check(a, o, r, c); err != nil {
 			return err
 		}
 	}
